@@ -141,7 +141,10 @@ impl ServerInfo {
             }
 
             let mut split = line.split_whitespace();
-            match split.next().unwrap() {
+            let Some(keyword) = split.next() else {
+                continue;
+            };
+            match keyword {
                 "8BITMIME" => {
                     features.insert(Extension::EightBitMime);
                 }
